@@ -209,10 +209,14 @@ def run(ck, facts, tier):
         shape = False
         if len(zc) == 1:
             v = peel(zc[0]["args"][1])
-            if v.get("k") == "call" and callee_matches(v, VAR + "::xform") and var_name(v["args"][0]) == "ambient":
+            from kit import params_of_type as _pot
+            amb = _pot(zs, "Variance") or {"ambient"}
+            if v.get("k") == "call" and callee_matches(v, VAR + "::xform") and var_name(v["args"][0]) in amb:
                 init = lets.get(var_name(v["args"][1]))
-                if init is not None and has_call(init, "unwrap_or") and has_call(init, "Option::map") and \
-                        any(n.get("k") == "adt" and n.get("adt") == VAR and n["v"] == "Invariant" for n in walk(init)) and \
+                # the declared variance of parameter i, Invariant when none is declared - written with Option::map / unwrap_or or as a
+                # match on the Option: an indexing of the declared list, the constant Invariant and no other constant variance
+                consts = [n["v"] for n in walk(init) if n.get("k") == "adt" and n.get("adt") == VAR] if init is not None else []
+                if init is not None and consts and set(consts) == {"Invariant"} and \
                         any(n.get("k") in ("index",) or (n.get("k") == "call" and callee_matches(n, "Index::index")) for n in walk(init)):
                     shape = True
         if shape and has_call(th, "Iterator::zip") and has_call(th, "Iterator::enumerate"):
